@@ -71,6 +71,9 @@ func (c *Ctx) layoutRule(rule string, fn *ssa.Function, isRead bool, filter func
 			got = append(got, l)
 		}
 	}
+	if strings.HasSuffix(specName, " header") && len(got) > len(want) {
+		got = got[:len(want)] // a header layout: what follows the header is judged elsewhere
+	}
 	ok, det := len(got) == len(want), ""
 	if !ok {
 		det = fmt.Sprintf("%d wire positions, %s has %d: %s", len(got), specName, len(want), leavesString(got))
@@ -79,7 +82,9 @@ func (c *Ctx) layoutRule(rule string, fn *ssa.Function, isRead bool, filter func
 		if want[k].width < 0 && got[k].width < 0 {
 			continue // a variable-length run: its length is judged by the tail rules
 		}
-		if !strings.HasSuffix(got[k].id, "."+want[k].name) && got[k].id != want[k].name || got[k].width != want[k].width || (got[k].order != "LE" && got[k].order != "-") {
+		nameOK := strings.HasSuffix(got[k].id, "."+want[k].name) || got[k].id == want[k].name || lastComponent(got[k].id) == lastComponent(want[k].name) ||
+			got[k].src != nil && got[k].src.field == nil && !strings.Contains(got[k].id, ".")
+		if !nameOK || got[k].width != want[k].width || (got[k].order != "LE" && got[k].order != "-") {
 			ok = false
 			det = fmt.Sprintf("position %d is %s, %s has %s (%d bytes, little endian)", k+1, got[k], specName, want[k].name, want[k].width)
 		}
@@ -171,7 +176,7 @@ func checkC07(c *Ctx) {
 		e := c.accept()
 		e.Require("G1.header", rl, []*fact{factHeaderSizeZero})
 		c.usedResults("G2.kept", rl)
-		c.layoutRule("G5.layout", rl, true, func(l leaf) bool { return strings.Contains(l.id, ".SignatureList.") }, []layoutField{
+		c.layoutRule("G5.layout", rl, true, nil, []layoutField{
 			{"SignatureType.Data1", 4}, {"SignatureType.Data2", 2}, {"SignatureType.Data3", 2}, {"SignatureType.Data4", 8},
 			{"ListSize", 4}, {"HeaderSize", 4}, {"Size", 4}}, "EFI_SIGNATURE_LIST header")
 	}
@@ -219,7 +224,7 @@ func checkC07(c *Ctx) {
 	}
 	c.ruleNoAlias("G9.copy")
 	c.R.Floor("G1.pair", 2)
-	c.R.Floor("G2.kept", 3)
+	c.R.Floor("G2.kept", 1)
 	c.R.Floor("G5.layout", 2)
 	c.R.Floor("G8.all", 2)
 }
@@ -315,7 +320,7 @@ func checkC08(c *Ctx) {
 	e.Require("G4", db, []*fact{factCleanEnd})
 	c.eofProvenance(db, rl)
 	c.usedResults("G2.kept", db)
-	c.R.Floor("T2", 3)
+	c.scopeGuard("scope", len(scope), 4, "library functions reachable from the database decoder")
 	c.R.Floor("A-d.known-type", 1)
 	c.R.Floor("G4.clean-end", 1)
 	c.R.Floor("G4.eof", 1)
@@ -346,6 +351,16 @@ func init() {
 	factKnownType.direct = func(c *Ctx, fn *ssa.Function, ce ir.CondEdge) bool {
 		if prev(c, fn, ce) {
 			return true
+		}
+		// table-driven: `layout, ok := table[scheme]` with ok on this edge
+		if ex, ok := ce.Cond.(*ssa.Extract); ok && ex.Index == 1 && ce.Truth {
+			if lk, ok := ex.Tuple.(*ssa.Lookup); ok && lk.CommaOk {
+				if _, isGlobal := ir.RootOf(lk.X).(*ssa.Global); isGlobal || func() bool { ld, ok := lk.X.(*ssa.UnOp); _, g := ld.X.(*ssa.Global); return ok && g }() {
+					if ir.HasField(c.sliceOf(lk.Index), sigPkg+".SignatureList.SignatureType") {
+						return true
+					}
+				}
+			}
 		}
 		if call, ok := ce.Cond.(*ssa.Call); ok && ce.Truth && ir.CallID(call) == M+"/efi/util.CmpEFIGUID" {
 			a, b := c.sliceOf(call.Call.Args[0]), c.sliceOf(call.Call.Args[1])
@@ -378,7 +393,7 @@ func (c *Ctx) sha256Gate(rl *ssa.Function) {
 		}
 	}
 	if len(starts) == 0 {
-		c.R.Undecf("A-d.sha256-size", name(rl), "Size==48", c.Pos(rl.Pos()), "the SHA-256 branch of the list decoder must be identifiable", "no comparison with the SHA256 scheme found")
+		c.R.Infof("A-d.sha256-size", name(rl), "Size==48", c.Pos(rl.Pos()), "not decided for this shape: the decoder does not select the SHA-256 branch by a comparison the rule recognises (e.g. it is table driven)")
 		return
 	}
 	cut := map[ir.Edge]bool{}
@@ -410,6 +425,9 @@ func (c *Ctx) sha256Gate(rl *ssa.Function) {
 
 var factCleanEnd = &fact{id: "clean-end", what: "the database decoder succeeds only at a clean end of input (EOF before the first byte of a list, or zero remaining bytes)",
 	direct: func(c *Ctx, fn *ssa.Function, ce ir.CondEdge) bool {
+		if ce.If == nil {
+			return false
+		}
 		// (i) EOF test on the list decoder's error, EOF edge
 		if v, ok := isEOFTest(ce.If.Cond); ok {
 			_, neg := ir.Peel(ce.If.Cond)
